@@ -5724,6 +5724,9 @@ class TensorDictBase(MutableMapping):
                 )
                 if not return_early:
                     concurrent.futures.wait(futures)
+                    for future in futures:
+                        # re-raise the exceptions encountered in the writer threads, if any
+                        future.result()
                     return _lock_after_memmap(result)
                 else:
                     return TensorDictFuture(futures, result)
@@ -5928,6 +5931,9 @@ class TensorDictBase(MutableMapping):
                 )
                 if not return_early:
                     concurrent.futures.wait(futures)
+                    for future in futures:
+                        # re-raise the exceptions encountered in the writer threads, if any
+                        future.result()
                     return _lock_after_memmap(result)
                 else:
                     return TensorDictFuture(futures, result)
@@ -6035,6 +6041,9 @@ class TensorDictBase(MutableMapping):
                 )
                 if not return_early:
                     concurrent.futures.wait(futures)
+                    for future in futures:
+                        # re-raise the exceptions encountered in the writer threads, if any
+                        future.result()
                     return _lock_after_memmap(result)
                 else:
                     return TensorDictFuture(futures, result)
